@@ -178,3 +178,13 @@ Theorem c12_code_ballot_order : forall a b c : Ballot,
   /\ (Ballot___lt__ a b = true \/ Ballot___lt__ b a = true \/ bal_of a = bal_of b).
 Proof. intros a b c. exact (conj (tie_ballot_lt a b) (ballot_lt_strict_total a b c)). Qed.
 Print Assumptions c12_code_ballot_order.
+
+(** The quorum of the CODE: PaxosNode.quorum_size, regenerated from consensus/paxos.py on every run, is
+    the model's [quorum] for a configuration with as many peers, and a strict majority of the cluster
+    (node + peers), so any two quorums intersect — what "chosen unique" and agreement rest on. *)
+Theorem c12_code_quorum_is_majority : forall (n : PaxosNode) (c : pcfg),
+  (length (peers c) = length (PaxosNode__peers n) -> PaxosNode_quorum_size n = quorum c)
+  /\ (let total := Z.of_nat (length (PaxosNode__peers n)) + 1 in
+      2 * PaxosNode_quorum_size n > total /\ PaxosNode_quorum_size n <= total).
+Proof. intros n c. exact (conj (tie_paxos_quorum n c) (paxos_quorum_majority n)). Qed.
+Print Assumptions c12_code_quorum_is_majority.
